@@ -665,6 +665,10 @@ def main(argv):
     tier = os.environ.get('VERIF_TIER', 'quick')
     if '--tier' in argv:
         tier = argv[argv.index('--tier') + 1]
+    if tier == 'thorough':
+        os.environ['VERIF_THOROUGH'] = '1'   # replay tests widen their bounded-exhaustive enumerations
+    else:
+        os.environ.pop('VERIF_THOROUGH', None)
     return check_property(pid, tier)
 
 
